@@ -1,23 +1,150 @@
-(* PARTIAL hand model of pysmt.rewritings.propagate_toplevel (rewritings.py 1060-1115).
+(* Hand model (H) of pysmt.rewritings.propagate_toplevel with do_simplify=False,
+   preserve_equivalence=True (rewritings.py 939-1115), DisjointSet included.
 
-   Modelled: the LAST step of the function, given the map sigma that the union-find produced:
-       res = formula.substitute(sigma);  res = And(res, And([Equals(k, sigma[k]) for k in sigma]))
-   for maps whose keys are symbols (C10Local.vsubst), with do_simplify=False.
-   NOT modelled: DisjointSet with ranking (the ranking compares node ids, which the term model
-   does not have), constant keys, the early `return FALSE`, do_simplify=True.  The harness checks
-   the whole function against the independent evaluator only (no Coq correspondence). *)
+   - The top-level conjuncts are taken in the yield order of conjunctive_partition
+     (models/Partition.v).  A conjunct  l = r  with both sides a symbol or a constant (array
+     values skipped) is recorded: relevant += {l, r}; disjoint_set.add(l, r).
+   - DisjointSet keeps leader : member -> leader (and the groups, which are always
+     {k | leader[k] = l}; the model recomputes them from [leader]).  Ranking uses
+     compare(a, b): 0 on the same node, difference of the values for two constants
+     (str - str raises TypeError: [None]), constants before symbols, otherwise the difference of
+     the NODE IDS.  Node ids are not part of a term: the model takes the list [order] of the
+     equalities' arguments sorted by node id (supplied by the harness; any total order in the
+     theorems).  Quirk kept: when only one of the two has a leader the other simply joins that
+     group, without ranking, so a constant can end up with a symbol as its leader and is then
+     itself substituted.
+   - sigma[k] = leader[k] for every relevant k that is not its own leader; two different
+     constants in one group -> the result is FALSE.
+   - res = And(formula.substitute(sigma), And([Equals(k, sigma[k]) for k in sigma])).
+   The substitution is the MGSubstituter with symbol AND constant keys ([tsubst]: a node that is
+   a key is replaced; quantifiers drop the keys one of whose free variables they bind, and bound
+   variables are never renamed - hence the open finding proptop:substitution-under-binder).
+   Not modelled: do_simplify=True (the simplifier is C01's subject). *)
 From Coq Require Import List ZArith Bool String.
 From PySMT.core Require Import Syntax.
 From PySMT.models Require Import Oracles C10Local Partition.
 Import ListNotations.
 Open Scope bool_scope.
 
-Definition reassert (sigma : list (var * term)) : term :=
+Definition is_symbol (t : term) : bool := match t with T (OSymbol _ _) _ => true | _ => false end.
+Definition is_array_value (t : term) : bool := match t with T (OArrayValue _) _ => true | _ => false end.
+
+Fixpoint index_of_term (t : term) (l : list term) (i : Z) : Z :=
+  match l with [] => i | x :: r => if term_eqb x t then i else index_of_term t r (i + 1)%Z end.
+
+(* compare(a, b) > 0 ; None = TypeError *)
+Definition cmp_gt (order : list term) (a b : term) : option bool :=
+  if term_eqb a b then Some false
+  else match a, b with
+       | T (OIntC x) _, T (OIntC y) _ => Some (0 <? x - y)%Z
+       | T (OBVC x _) _, T (OBVC y _) _ => Some (0 <? x - y)%Z
+       | T (ORealC n1 d1) _, T (ORealC n2 d2) _ => Some (0 <? n1 * d2 - n2 * d1)%Z
+       | T (OBoolC x) _, T (OBoolC y) _ => Some (andb x (negb y))
+       | _, _ =>
+           if is_const a && is_const b then None
+           else if is_const a then Some false
+           else if is_const b then Some true
+           else Some (0 <? index_of_term a order 0 - index_of_term b order 0)%Z
+       end.
+
+Definition lmap := list (term * term).          (* member -> leader *)
+Fixpoint lfind (m : lmap) (k : term) : option term :=
+  match m with [] => None | (x, l) :: r => if term_eqb x k then Some l else lfind r k end.
+Definition lset (m : lmap) (k l : term) : lmap :=
+  if match lfind m k with Some _ => true | None => false end
+  then map (fun p => if term_eqb (fst p) k then (fst p, l) else p) m
+  else m ++ [(k, l)].
+
+Definition ds_add (order : list term) (m : lmap) (a b : term) : option lmap :=
+  match lfind m a, lfind m b with
+  | Some la, Some lb =>
+      if term_eqb la lb then Some m
+      else match cmp_gt order la lb with
+           | None => None
+           | Some sw =>
+               let la' := if sw then lb else la in
+               let lb' := if sw then la else lb in
+               Some (map (fun p => if term_eqb (snd p) lb' then (fst p, la') else p) m)
+           end
+  | Some la, None => Some (lset m b la)
+  | None, Some lb => Some (lset m a lb)
+  | None, None =>
+      match cmp_gt order a b with
+      | None => None
+      | Some sw => let a' := if sw then b else a in let b' := if sw then a else b in
+                   Some (lset (lset m a' a') b' a')
+      end
+  end.
+
+Definition sym_or_const (t : term) : bool := is_symbol t || is_const t.
+Definition is_def (c : term) : option (term * term) :=
+  match c with
+  | T OEquals [l; r] =>
+      if is_array_value l || is_array_value r then None
+      else if sym_or_const l && sym_or_const r then Some (l, r) else None
+  | _ => None
+  end.
+
+(* the first loop: (relevant in insertion order, leader map) *)
+Fixpoint scan (order : list term) (cs : list term) (rel : list term) (m : lmap) : option (list term * lmap) :=
+  match cs with
+  | [] => Some (rel, m)
+  | c :: rest =>
+      match is_def c with
+      | Some (l, r) =>
+          match ds_add order m l r with
+          | Some m' => scan order rest (add term_eqb r (add term_eqb l rel)) m'
+          | None => None
+          end
+      | None => scan order rest rel m
+      end
+  end.
+
+Inductive sigma_res := SConflict | SMap (s : list (term * term)).
+Fixpoint build_sigma (rel : list term) (m : lmap) (acc : list (term * term)) : sigma_res :=
+  match rel with
+  | [] => SMap acc
+  | k :: rest =>
+      match lfind m k with
+      | Some v => if term_eqb k v then build_sigma rest m acc
+                  else if is_const k && is_const v then SConflict
+                  else build_sigma rest m (acc ++ [(k, v)])
+      | None => build_sigma rest m acc
+      end
+  end.
+
+(* MGSubstituter with term keys *)
+Fixpoint tlookup (s : list (term * term)) (t : term) : option term :=
+  match s with [] => None | (k, v) :: r => if term_eqb k t then Some v else tlookup r t end.
+Definition tfilter (s : list (term * term)) (vs : list var) : list (term * term) :=
+  filter (fun kv => forallb (fun x => negb (mem var_eqb x vs)) (fv (fst kv))) s.
+
+Fixpoint tsubst (s : list (term * term)) (t : term) {struct t} : term :=
+  match t with
+  | T (OForall vs) [b] => mk_forall vs (tsubst (tfilter s vs) b)
+  | T (OExists vs) [b] => mk_exists vs (tsubst (tfilter s vs) b)
+  | T o args => match tlookup s t with Some v => v | None => rebuild o (map (tsubst s) args) end
+  end.
+
+Definition reassert (sigma : list (term * term)) : term :=
+  mk_and (map (fun kv => T OEquals [fst kv; snd kv]) sigma).
+
+(* None = the implementation raises (TypeError in compare) *)
+Definition propagate_toplevel (order : list term) (t : term) : option term :=
+  match scan order (conjunctive_partition t) [] [] with
+  | None => None
+  | Some (rel, m) =>
+      match build_sigma rel m [] with
+      | SConflict => Some TFalse
+      | SMap sigma => Some (T OAnd [tsubst sigma t; reassert sigma])
+      end
+  end.
+
+(* ---- the last step alone, for symbol-keyed maps (kept for the refutation witness) ---- *)
+Definition reassert_v (sigma : list (var * term)) : term :=
   mk_and (map (fun kv => T OEquals [TSym (fst (fst kv)) (snd (fst kv)); snd kv]) sigma).
 Definition propagate_with (sigma : list (var * term)) (t : term) : term :=
-  T OAnd [vsubst sigma t; reassert sigma].
-
-(* sigma is licensed by the formula: every k -> v is (an orientation of) a top-level conjunct *)
+  T OAnd [vsubst sigma t; reassert_v sigma].
 Definition licensed (sigma : list (var * term)) (t : term) : bool :=
   forallb (fun kv =>
              let k := TSym (fst (fst kv)) (snd (fst kv)) in
